@@ -811,4 +811,72 @@ Proof. intros Bd. unfold SetAdaptationFieldExtension. rewrite valid_p. cbn [bind
         repeat split; try assumption; try lia; try apply WP; try apply WO.
   - cbn [ok_out]. apply rel_nojunk; [reflexivity|discriminate|cbn [spec_step]; rewrite E; reflexivity].
 Qed.
+
+(* ---- copying a whole adaptation field (modify.go SetAdaptationField) ---- *)
+Lemma setaf_ok src hs ls ps : src = hs ++ ser_laf ls ++ ps -> length hs = 4%nat -> wf_laf ls -> fits ls ->
+  ok_out h0 h1 h2 h3 pay l (OSetAF src) (SetAdaptationField p src).
+Proof. intros Hsrc Hhs Wls Fls.
+  destruct hs as [|s0 [|s1 [|s2 [|s3 [|]]]]]; try discriminate. clear Hhs.
+  assert (Esrc: src = pk s0 s1 s2 s3 (l_len ls) (flags ls) (body ls ++ stuff ls ++ ps)).
+  { rewrite Hsrc. unfold pk, ser_laf, stuff. cbn [app]. rewrite <- app_assoc. reflexivity. }
+  pose proof Hwf as (WL & WP & WO & WS & WT & WE). pose proof Hfits as F. unfold fits in F.
+  pose proof Wls as (VL & VP & VO & VS & VT & VE). pose proof Fls as G. unfold fits in G.
+  assert (Rs: 6 + len (body ls) <= 188) by (unfold content_len in G; lia).
+  assert (OUT: forall out, out = (if content_len ls <=? L then Done (set_len ls L) else Fail E.AdaptationFieldTooLarge) ->
+               op_rel l (OSetAF src) out).
+  { intros out ->. exists [s0; s1; s2; s3], ls, ps.
+    split; [exact Hsrc|split; [reflexivity|split; [exact Wls|split; [exact Fls|reflexivity]]]]. }
+  set (o := OSetAF src) in *.
+  unfold SetAdaptationField.
+  unfold cpk at 1. rewrite get_bit_pk3, Hh3. cbn [negb]. rewrite se_p.
+  assert (SS: stuffingStart src = 6 + len (body ls)).
+  { rewrite Esrc. apply (stuffingStart_p s0 s1 s2 s3 ls (stuff ls ++ ps) VP VO Rs). }
+  rewrite !SS.
+  destruct (N.ltb_spec (L + 5) (6 + len (body ls))) as [T|T].
+  - cbn [ok_out]. apply OUT. replace (content_len ls <=? L) with false; [reflexivity|].
+    symmetry. apply N.leb_gt. unfold content_len. lia.
+  - assert (CLs: content_len ls <= L) by (unfold content_len; lia).
+    set (AFr := flags l :: body l ++ St).
+    assert (LA: len AFr = L). { unfold AFr. rewrite len_cons, len_app, len_St. unfold content_len in *. lia. }
+    assert (Ep: p = [h0; h1; h2; h3; L] ++ AFr ++ pay).
+    { unfold cpk, pk, AFr. cbn [app]. rewrite <- app_assoc. reflexivity. }
+    rewrite Ep at 1. rewrite (slice_mid [h0; h1; h2; h3; L] AFr pay) by (try reflexivity; rewrite LA; change (len [h0; h1; h2; h3; L]) with 5; lia).
+    cbn [bind].
+    set (s := flags ls :: body ls).
+    assert (Ls: len s = content_len ls). { unfold s, content_len. rewrite len_cons. reflexivity. }
+    assert (Es: src = [s0; s1; s2; s3; l_len ls] ++ s ++ (stuff ls ++ ps)).
+    { rewrite Esrc. unfold pk, s. cbn [app]. reflexivity. }
+    rewrite Es at 1. rewrite (slice_mid _ s) by (try reflexivity; rewrite Ls; unfold content_len; change (len [s0; s1; s2; s3; l_len ls]) with 5; lia).
+    cbn [bind ok_out].
+    replace (firstn (length AFr) s) with s.
+    2:{ symmetry. apply firstn_all2. unfold len in *. lia. }
+    exists (set_len ls L).
+    split; [apply OUT; replace (content_len ls <=? L) with true by (symmetry; apply N.leb_le; exact CLs); reflexivity|].
+    split; [|split; [|split; [exact CLs|reflexivity]]].
+    + rewrite Ep.
+      assert (EA: AFr = takeN (len s) AFr ++ dropN (len s) AFr) by (symmetry; apply takeN_dropN).
+      rewrite EA at 1. rewrite <- (app_assoc (takeN (len s) AFr)).
+      rewrite (blit_mid [h0; h1; h2; h3; L] (takeN (len s) AFr) _ s);
+        [|reflexivity|rewrite len_takeN; [reflexivity|lia]].
+      set (junk := dropN (len s) AFr).
+      assert (LJ: len junk = L - content_len ls) by (unfold junk; rewrite len_dropN; lia).
+      assert (E1: [h0; h1; h2; h3; L] ++ s ++ junk ++ pay =
+                  pk h0 h1 h2 h3 (l_len (set_len ls L)) (flags (set_len ls L)) (body (set_len ls L) ++ (junk ++ pay))).
+      { unfold pk, s. cbn [app]. reflexivity. }
+      rewrite E1. unfold stuffAF.
+      rewrite (stuffingStart_p h0 h1 h2 h3 (set_len ls L) (junk ++ pay) VP VO Rs).
+      rewrite (stuffingEnd_p h0 h1 h2 h3 (set_len ls L) (junk ++ pay)) by first [exact Rs|cbn [set_len l_len]; lia].
+      unfold fill_ff. rewrite pk_H6.
+      replace (H6 h0 h1 h2 h3 (l_len (set_len ls L)) (flags (set_len ls L)) ++ body (set_len ls L) ++ junk ++ pay)
+        with ((H6 h0 h1 h2 h3 (l_len (set_len ls L)) (flags (set_len ls L)) ++ body (set_len ls L)) ++ junk ++ pay)
+        by (rewrite <- !app_assoc; reflexivity).
+      rewrite (blit_mid _ junk pay).
+      * rewrite <- app_assoc, <- pk_H6. cbn [set_len l_len].
+        change (body (set_len ls L)) with (body ls).
+        replace (L + 5 - (6 + len (body ls))) with (L - content_len ls) by (unfold content_len; lia).
+        reflexivity.
+      * rewrite len_app, len_H6. reflexivity.
+      * rewrite len_repeatN, LJ. cbn [set_len l_len]. change (body (set_len ls L)) with (body ls). unfold content_len. lia.
+    + unfold wf_laf. cbn [set_len l_pcr l_opcr l_splice l_tpd l_ext l_len]. repeat split; try assumption; try lia; try apply VP; try apply VO.
+Qed.
 End Setters.
